@@ -198,6 +198,11 @@ theorem step_inv (c : Cls α) (hc : Lawful c) (s s' : Seq α) (op : Op α) (hi :
     · cases h
   | setLength n fl => simp only [step] at h; cases h; exact setLength_inv c hc s n fl hok hi
   | slice i j => exact fromEventList_inv c hc _ _ _ _ _ h
+  | sliceStep i j k =>
+    simp only [step] at h
+    split at h
+    · cases h
+    · exact fromEventList_inv c hc _ _ _ _ _ h
   | incRes k fill => simp only [step] at h; cases h; exact incRes_inv c hc s k fill hok hi
   | deepcopy => exact fromEventList_inv c hc _ _ _ _ _ h
   | reinit ev st b q => exact fromEventList_inv c hc _ _ _ _ _ h
@@ -326,6 +331,7 @@ theorem step_frame' (c : Cls α) (s s' : Seq α) (op : Op α) (h : step c s op =
     | .append e => s'.events = s.events ++ [e] ∧ s'.start = s.start ∧ s'.spb = s.spb ∧ s'.spq = s.spq
     | .setLength _ _ => s'.spb = s.spb ∧ s'.spq = s.spq
     | .slice _ _ => s'.spb = s.spb ∧ s'.spq = s.spq
+    | .sliceStep _ _ _ => s'.spb = s.spb ∧ s'.spq = s.spq
     | .deepcopy => s'.events = c.clean s.events ∧ s'.start = s.start ∧ s'.spb = s.spb ∧ s'.spq = s.spq
     | .reinit ev st b q => s'.events = c.clean ev ∧ s'.start = st ∧ s'.spb = b ∧ s'.spq = q
     | .reset => s'.events = [] ∧ s'.start = 0
@@ -342,6 +348,11 @@ theorem step_frame' (c : Cls α) (s s' : Seq α) (op : Op α) (h : step c s op =
     · obtain ⟨_, _, a, b⟩ := setLength_fields_right c s n; exact ⟨a, b⟩
     · obtain ⟨_, _, a, b⟩ := setLength_fields_left c s n; exact ⟨a, b⟩
   | slice i j => obtain ⟨_, _, _, _, hb, hq⟩ := fromEventList_ok _ _ _ _ _ _ h; exact ⟨hb, hq⟩
+  | sliceStep i j k =>
+    simp only [step] at h
+    split at h
+    · cases h
+    · obtain ⟨_, _, _, _, hb, hq⟩ := fromEventList_ok _ _ _ _ _ _ h; exact ⟨hb, hq⟩
   | deepcopy => obtain ⟨_, he, hs, _, hb, hq⟩ := fromEventList_ok _ _ _ _ _ _ h; exact ⟨he, hs, hb, hq⟩
   | reinit ev st b q => obtain ⟨_, he, hs, _, hb, hq⟩ := fromEventList_ok _ _ _ _ _ _ h; exact ⟨he, hs, hb, hq⟩
   | reset => simp only [step] at h; cases h; exact ⟨rfl, rfl⟩
@@ -374,6 +385,11 @@ theorem refines_abstract' (c : Cls α) (s : Seq α) (op : Op α) (hi : Inv c s) 
   | slice i j =>
     simp only [step, fromEventList_map_abs, astep, Seq.abs, pySlice]
     rfl
+  | sliceStep i j k =>
+    by_cases hk : k = 0
+    · simp [step, astep, hk, Except.map]
+    · simp only [step, astep, hk, if_false, fromEventList_map_abs, Seq.abs]
+      rfl
   | incRes k f =>
     simp only [step, Except.map, astep, Seq.abs, incRes]
     refine congrArg (fun g => Except.ok (s.start * k, List.flatMap g s.events)) ?_
@@ -584,6 +600,13 @@ theorem lead_inv_step' (l l' : LeadSheet) (op : LOp) (hi : LInv l) (hok : LOpOk 
     obtain ⟨e, a1, a2, a3, a4, a5⟩ := mkLeadSheet_ok _ _ _ h
     subst e
     exact ⟨step_inv _ melody_lawful _ _ (.slice i j) im trivial hm, step_inv _ chord_lawful _ _ (.slice i j) ic trivial hc, a1, a4, a5, a2, a3⟩
+  | sliceStep i j k =>
+    simp only [lstep] at h
+    obtain ⟨m', hm, h⟩ := bind_ok _ _ _ h
+    obtain ⟨c', hc, h⟩ := bind_ok _ _ _ h
+    obtain ⟨e, a1, a2, a3, a4, a5⟩ := mkLeadSheet_ok _ _ _ h
+    subst e
+    exact ⟨step_inv _ melody_lawful _ _ (.sliceStep i j k) im trivial hm, step_inv _ chord_lawful _ _ (.sliceStep i j k) ic trivial hc, a1, a4, a5, a2, a3⟩
   | incRes k =>
     simp only [lstep] at h; cases h
     have hk : 1 ≤ k := hok
